@@ -642,6 +642,20 @@ func main() {
 		jobs = append(jobs, hashJob("adler32", data, "adler-worst-case", []int{256, 1, n}, "value", true))
 	}
 	jobs = append(jobs, hashJob("adler32", bytes.Repeat([]byte{0xFF}, 200000), "all-ff", nil, "update", true))
+	// Long worst-case runs in ONE update call (and in pieces larger than any chunk length): a SIMD variant whose
+	// per-round chunk is too long only wraps its u32 sums after many chunks of 0xFF / 0xFE bytes that start with a
+	// large s1 (e.g. chunk 5568: first wrong after 462144 bytes of 0xFF, 233856 of 0xFE).
+	for _, v := range []byte{0xFF, 0xFE, 0xFD} {
+		big := bytes.Repeat([]byte{v}, 1<<20+4321)
+		content := fmt.Sprintf("all-%02x-1m", v)
+		jobs = append(jobs, hashJob("adler32", big, content, nil, "update", v == 0xFF))
+		jobs = append(jobs, hashJob("adler32", big, content, []int{300000, 8192, 65536}, "mix", false))
+		jobs = append(jobs, hashJob("adler32", big[:600000], content, []int{7, 599993}, "value", false))
+	}
+	for _, c := range []string{"crc32", "crc64", "sha256"} {
+		jobs = append(jobs, hashJob(c, hr.Bytes(1<<20+77), "random-1m", nil, "update", false))
+		jobs = append(jobs, hashJob(c, hr.Bytes(1<<19+5), "random-512k", []int{3, 100000, 65536}, "mix", false))
+	}
 	// CRC slicing: every length 0..70 at the loop boundary (16 / 8 byte blocks), both halves of a split
 	for n := 0; n <= 70; n++ {
 		for _, c := range []string{"crc32", "crc64"} {
@@ -758,7 +772,7 @@ func main() {
 			addDec(encoded{codec: "lzw", setting: fmt.Sprintf("literal-only litwidth=%d", lw), opts: fmt.Sprintf("lzw_litwidth=%d", lw), lw: lw, data: enc}, payload{p.class, q}, chunkOpt(tr))
 		}
 		// external tools
-		if r.Thorough || pi%2 == 1 || len(p.data) < 1000 || p.class == "incompressible-40k" {
+		if r.Thorough || pi%2 == 1 || len(p.data) < 1000 || p.class == "incompressible-40k" || strings.Contains(p.class, "random") {
 			type tl struct {
 				codec, name string
 				args        []string
